@@ -29,7 +29,8 @@ RULE = ("family B (80%): generated signatures over the five parameter kinds (0-2
         "family E (15%): 2-4 positional-or-keyword parameters with Param(dependencies=...) and Options(max_params / min_params / "
         "collect_errors), as plain function, instance method or @staticmethod over @utype.parse with a bare first parameter: the same "
         "argument values are passed all by keyword and with the first j by position, and verdict, error type and the binding the body "
-        "receives must agree ('passing a parameter by position or by any accepted name is equivalent'). "
+        "receives must agree ('passing a parameter by position or by any accepted name is equivalent'). family bound (2%): @utype.parse applied to "
+        "bound methods of several instances and to a classmethod taken from a class and its subclass, with one shared Options object. "
         "Non-trivial = the call binds and either converts something, uses a default, an alias, *args/**kwargs or fails; distinct = "
         "(signature shape, context, call shape, outcome).")
 ASSUMPTIONS = [
@@ -365,7 +366,70 @@ def run_E(case, ctx):
             ctx.trivial("equivalent-plain")
 
 
+BOUND_SRC = """
+import utype
+from utype import Options
+class K:
+    def __init__(self, tag):
+        self.tag = tag
+    def m(self, a: int, b: str = '-'):
+        _seen.append((self.tag, a, b))
+        return self.tag
+    @classmethod
+    def c(cls, a: int):
+        _seen.append((cls.__name__, a))
+        return cls.__name__
+class K2(K):
+    pass
+"""
+
+
+def run_bound(case, ctx):
+    """@utype.parse applied to BOUND methods of several instances / classes (with one shared Options object, or none):
+    each wrapper runs the body with the object Python binds"""
+    import utype
+    from utype import Options
+    seen = []
+    ns = {"_seen": seen}
+    exec(BOUND_SRC, ns)
+    K, K2 = ns["K"], ns["K2"]
+    opts = {"none": None, "shared": Options(collect_errors=True), "shared-plain": Options(addition=None, ignore_required=False)}[case["opts"]]
+    objs = [K("alpha"), K("beta"), K2("gamma")]
+    order = case["order"]
+    try:
+        ws = [(objs[j], utype.parse(objs[j].m, options=opts) if opts is not None else utype.parse(objs[j].m)) for j in order]
+        cs = [(c, utype.parse(c.c, options=opts) if opts is not None else utype.parse(c.c)) for c in ([K, K2] if case["flip"] else [K2, K])]
+    except Exception as e:
+        ctx.count("declaration_rejected:" + type(e).__name__)
+        return
+    sig = ("bound", case["opts"], tuple(order), case["flip"])
+    for obj, w in ws:
+        del seen[:]
+        o = run(lambda: w("5", b=7))
+        ctx.count("calls")
+        ctx.count("bound_method_calls")
+        exp = (obj.tag, 5, "7")
+        if not o.ok or not seen or seen[-1] != exp:
+            ctx.violation("C08/bound-method/body-bound-to-another-object",
+                          f"utype.parse(<{obj.tag}>.m, options={case['opts']}) called ('5', b=7): body received {seen[-1:] or None}, Python binds {exp}; outcome {o!r}",
+                          {"source": BOUND_SRC, "decorated_in_order": [objs[j].tag for j in order], "options": case["opts"], "observed": seen[-1:] and list(seen[-1])}, sig=sig)
+            return
+    for c, w in cs:
+        del seen[:]
+        o = run(lambda: w("6"))
+        ctx.count("calls")
+        exp = (c.__name__, 6)
+        if not o.ok or not seen or seen[-1] != exp:
+            ctx.violation("C08/bound-method/body-bound-to-another-object",
+                          f"utype.parse({c.__name__}.c, options={case['opts']}) called ('6'): body received {seen[-1:] or None}, Python binds {exp}; outcome {o!r}",
+                          {"source": BOUND_SRC, "options": case["opts"]}, sig=sig)
+            return
+    ctx.held(sig)
+
+
 def make_case(i, rng, tier):
+    if rng.random() < 0.02:
+        return {"fam": "bound", "opts": rng.choice(["none", "shared", "shared", "shared-plain"]), "order": rng.sample([0, 1, 2], rng.choice([2, 3])), "flip": rng.random() < 0.5}
     if rng.random() < 0.15:
         return gen_E(rng)
     if rng.random() < 0.2:
@@ -675,6 +739,8 @@ def run_G(case, ctx):
 
 
 def run_case(case, ctx):
+    if case["fam"] == "bound":
+        return run_bound(case, ctx)
     if case["fam"] == "E":
         return run_E(case, ctx)
     return run_B(case, ctx) if case["fam"] == "B" else run_G(case, ctx)
